@@ -77,7 +77,7 @@ func GenQueryOpt(r *rand.Rand, profile string, depthBonus int, pInstant float64,
 			continue
 		}
 		el, ql := lookbacks(r)
-		do := gen.DataOpt{MaxSeries: 12, Hist: strings.Contains(q, "h_bucket"), Lookback: effLookback(el, ql), PStale: 0.02, PSpecial: 0.02,
+		do := gen.DataOpt{MaxSeries: 12, Hist: strings.Contains(q, "_bucket"), Lookback: effLookback(el, ql), PStale: 0.02, PSpecial: 0.02,
 			NoTies: g.HasTopK}
 		switch profile {
 		case "selector":
